@@ -138,6 +138,8 @@ def lean_step(prop: str, extra_modules: list[str] | None = None, thorough: bool 
     try:
         try:
             res.tables_changed = extract_tables.write_tables()
+            for f in getattr(extract_tables.write_tables, "failed", []):
+                res.log += f"T1 extraction failed for {f}\n"
         except Exception as e:  # extraction failing = source no longer has the shape the translator reads
             res.ok = False
             res.broken.append(f"T1 table extraction failed: {e!r}")
